@@ -24,6 +24,9 @@ pub fn run(r: &mut Report) {
         ("rsa2384", "/verif/replay/fixtures/rsa-2384.spki.der", "/verif/replay/fixtures/rsa-2384.pk8.der", SignatureScheme::RsaSsaPssSha256),
         ("rsa2768", "/verif/replay/fixtures/rsa-2768.spki.der", "/verif/replay/fixtures/rsa-2768.pk8.der", SignatureScheme::RsaSsaPssSha512),
         ("ecdsa-2", "/verif/replay/fixtures/ec-2.spki.der", "/verif/replay/fixtures/ec-2.pk8.der", SignatureScheme::EcdsaP256Sha256),
+        // large moduli (the verifying side supports up to 8192 bits; their PEM text is well over a kilobyte)
+        ("rsa5120", "/verif/replay/fixtures/rsa-5120.spki.der", "/verif/replay/fixtures/rsa-5120.pk8.der", SignatureScheme::RsaSsaPssSha256),
+        ("rsa8192", "/verif/replay/fixtures/rsa-8192.spki.der", "/verif/replay/fixtures/rsa-8192.pk8.der", SignatureScheme::RsaSsaPssSha512),
     ] {
         let der = std::fs::read(spki).unwrap();
         let from_spki = no_panic(|| PublicKey::from_spki(&der, scheme.clone()));
@@ -33,7 +36,7 @@ pub fn run(r: &mut Report) {
         let from_priv = no_panic(|| PrivateKey::from_pkcs8(&pk, scheme.clone()).map(|k| k.public().clone()));
         // ring signs only with certain modulus sizes: for the two boundary-size keys the private half is not importable (an error, not
         // a different id), and the comparison is between the public paths
-        let public_only = name == "rsa2384" || name == "rsa2768";
+        let public_only = name == "rsa2384" || name == "rsa2768" || name == "rsa5120" || name == "rsa8192";
         let from_priv = if public_only && matches!(&from_priv, Ok(Err(_))) { no_panic(|| PublicKey::from_spki(&der, scheme.clone())) } else { from_priv };
         let ids: Vec<String> = [&from_spki, &from_pem, &from_priv].iter().map(|x| match x { Ok(Ok(k)) => format!("{:?}", k.key_id()), Ok(Err(e)) => format!("Err({})", e), Err(p) => format!("panic {}", p) }).collect();
         let ok = ids.iter().all(|i| i == &ids[0]) && !ids[0].starts_with("Err") && !ids[0].starts_with("panic");
